@@ -1016,13 +1016,13 @@ func C10() *check.Property {
 		Title:    "Subjects follow their sequential definition and are linearizable",
 		Patterns: CorePatterns,
 		Scope:    []string{ro},
-		Rules:    []check.Rule{ruleSubjectGuardedBy(), ruleSubjectGate(), ruleSubjectTerminal(), ruleReplayBeforeTerminal(), ruleUnicastSingle(), ruleSiblingTable(), ruleSubjectBroadcastLocked(), ruleCallbackReentrancy(), ruleSubjectDelivers(), ruleNilGuardPolarity(), ruleQueueFIFO(), ruleFinalizerDiscipline()},
+		Rules:    []check.Rule{ruleNoTryLockSkip(), ruleSubjectGuardedBy(), ruleSubjectGate(), ruleSubjectTerminal(), ruleReplayBeforeTerminal(), ruleUnicastSingle(), ruleSiblingTable(), ruleSubjectBroadcastLocked(), ruleCallbackReentrancy(), ruleSubjectDelivers(), ruleNilGuardPolarity(), ruleQueueFIFO(), ruleFinalizerDiscipline()},
 		Explanation: "Structural clauses only. Linearizability over concurrent histories is NOT decided. What is decided is the locking and ordering discipline that the sequential definition and the linearization argument rest on: all mutable subject state is accessed under one mutex " +
 			"(GUARDED-BY, lock-set data-flow); effects are gated on the open status, the terminal state is stored before the broadcast and observers are dropped at termination; registration happens under the gate and is undone by the subscription's teardown; " +
 			"the backlog is replayed before a stored terminal (REPLAY-BEFORE-TERMINAL); unicast installs its observer only when none is present; broadcasts happen under the mutex; and the four broadcasting siblings agree feature by feature (SIBLING-TABLE).",
 		NotDecided:  "linearizability itself, the contents/order of replay buffers (last N, latest value), sync.Map iteration order (all subscribers see values in publication order because each broadcast completes under the mutex — argued only).",
 		Assumptions: []string{"sync.Mutex and sync.Map semantics"},
 		Floors:      map[string]int{"field_accesses": 100, "subject_gated_effects": 30, "subject_terminal_methods": 10, "backlog_subjects": 3, "unicast_registrations": 1, "sibling_methods": 16, "subject_notifications": 15},
-		Controls:    map[string]string{"zz_verif_controls_nilguard.go": roControl(controlsNilGuard)},
+		Controls:    map[string]string{"zz_verif_controls_nilguard.go": roControl(controlsNilGuard), "zz_verif_controls_c05c.go": roControl(controlsC05c)},
 	}
 }
